@@ -16,7 +16,7 @@ CONF = dict(
  'slices.SortFunc returns a sorted permutation (its contract); the lucky-packet selection theorem is proved for every such permutation under pairwise distinct delays '
  '(the property\'s quantifier); tied delays are only compared relationally',
  'time.Time as unbounded nanoseconds, Time.Sub saturating; lucky-packet oracle for offsets below 2^62 ns (no int64 wrap in the even-count midpoint); '
- 'numeric closeness of the Ntimed raw offset for one-way differences below 2^62 ns, tolerance 2 ns + 2^-50 relative',
+ 'numeric closeness of the Ntimed raw offset stated (and proved for the model) for one-way differences below 2^62 ns, tolerance 2 ns + 2^-50 relative',
  'the epoch the filter sees is what the registered clock reports during the call (fake clock scripted per call)'],
     trusted=['Flocq 4 (IEEE754.BinarySingleNaN) as the float64 semantics; theorems about the Ntimed model depend on the four standard-library axioms Flocq uses; the '
  'lucky-packet theorems are closed under the global context',
@@ -25,16 +25,19 @@ CONF = dict(
     technique=('Coq proofs over a Gallina model of LuckyPacketFilter (window shift, sort by delay, truncate, sort by offset, median) and NtimedFilter (bit-exact binary64 via '
  'Flocq): rank-based characterisation of the k lowest-delay samples proved equal to firstn k of every strictly sorted permutation, induction over Do/Reset histories with '
  'the invariant "state = last N samples since the last reset", counter invariant navg = float(min(n,20)) for the warm-up clause, case analysis of the branch selection, '
- 'state-independence of a step at a reset point; differential execution of the extracted model against the exported filters with a registered fake clock'),
+ 'state-independence of a step at a reset point; rounding-error analysis of the raw offset over the reals (Flocq error_N_FLT per operation, linear real arithmetic); differential execution of the extracted model against the exported filters with a registered fake clock'),
     level_text=('Theorems quantify over all capacities, pick counts, histories, reset/epoch-change positions, timestamps (unbounded Z with Go\'s saturation/wrap written out) and, '
  'for the selection rule, over every sorted permutation the unstable sort may produce. The Ntimed model is compared bit-for-bit (in ns) with the Go filter on every run; the '
  'property oracle (selection-rule value; raw offset within float rounding and of the right sign on the first three samples after a reset point and on samples within the '
  'learned bounds; outputs equal to those of new filters started at every reset point) is evaluated on the implementation\'s outputs'),
-    level_note=('Partial: the numeric clause |raw_f - ClockOffset| <= 2 ns + 2^-50 relative, same sign (C17_ntimed_oracle_partial) is a hypothesis of the oracle theorem, not a '
- 'proved Flocq error bound; it is enforced by the oracle on every observed output. "Within the learned bounds" is evaluated with the limits of the model state. Tied '
- 'round-trip delays (outside the property\'s quantifier) are accepted by an executable relation (some choice among the tied samples) without a soundness theorem.'),
+    level_note=('The numeric clause is proved (C17_ntimed_raw_close, _raw_sign, _raw_close_oracle): |raw_f - ClockOffset| <= 2 ns + 2^-50 relative and same sign for all samples '
+ 'with one-way differences below 2^62 ns, from the Flocq semantics (four roundings at 2^-53 relative + underflow term, exact int->float below 2^53, truncating float->int); '
+ 'within 1 ns while |lo|+|hi| < 2^50 ns (C17_ntimed_raw_close_1ns); hence C17_ntimed_oracle holds for all histories without hypothesis. Beyond 2^62 ns the oracle does not judge '
+ 'the numeric clause. "Within the learned bounds" is evaluated with the limits of the model state. Tied round-trip delays (outside the property\'s quantifier) are accepted by an '
+ 'executable relation (some choice among the tied samples) without a soundness theorem.'),
     explanation=('C17_lucky_spec/_oracle: for all histories the configured filter returns the median offset of the min(k,N) lowest-delay samples of the last N since Reset; '
- 'C17_ntimed_raw_young/_within: raw offset during warm-up and within bounds; C17_ntimed_reset/_restart: outputs after a reset point are those of a new filter.'),
+ 'C17_ntimed_raw_young/_within: raw offset during warm-up and within bounds; C17_ntimed_raw_close/_sign: that raw offset is within 2 ns + 2^-50 relative of ntp.ClockOffset with its sign; '
+ 'C17_ntimed_reset/_restart: outputs after a reset point are those of a new filter; C17_ntimed_oracle: the model meets the whole Ntimed oracle on all histories.'),
     timeout_quick=600,
     timeout_thorough=3000,
 )
